@@ -44,6 +44,11 @@ type vfsStack struct {
 func vfsSig(r uint64) []byte { return []byte(fmt.Sprintf("signature-of-round-%08d", r)) }
 
 func vfsNewStack(backend string, chained bool, memCap int, prefill uint64) (*vfsStack, error) {
+	return vfsNewStackWith(backend, chained, memCap, prefill, nil)
+}
+
+// vfsNewStackWith: wrap (optional) decorates the base store before the checking stores are stacked on it.
+func vfsNewStackWith(backend string, chained bool, memCap int, prefill uint64, wrap func(chain.Store) chain.Store) (*vfsStack, error) {
 	st := &vfsStack{backend: backend, chained: chained}
 	ctx := context.Background()
 	if chained {
@@ -70,6 +75,9 @@ func vfsNewStack(backend string, chained bool, memCap int, prefill uint64) (*vfs
 			return nil, err
 		}
 		st.base = b
+	}
+	if wrap != nil {
+		st.base = wrap(st.base)
 	}
 	seed := []byte("genesis-seed-0000000000000000000")
 	if err := st.base.Put(ctx, chain.GenesisBeacon(seed)); err != nil {
